@@ -294,3 +294,58 @@ Theorem C10_defer_unlambda_func_var_refuted :
   exists c st1 st2, defer_unlambda_flags c = true /\ callee_eval st1 c <> callee_eval st2 c.
 Proof. exact defer_unlambda_func_var_refuted. Qed.
 Print Assumptions C10_defer_unlambda_func_var_refuted.
+
+(* ---------------- round 5: more rule triples ---------------- *)
+(* wrapperFunc, bytes family (was oracle-only): bytes.Index(b1, b2) >= 0 | != -1 => bytes.Contains(b1, b2) *)
+Theorem C10_wrapper_func_bytes_index_preserves : forall en b1 b2,
+  preserves en (rw_bytes_index_ge b1 b2) /\ preserves en (rw_bytes_index_ne b1 b2).
+Proof. intros en b1 b2. exact (conj (bytes_index_ge_preserves en b1 b2) (bytes_index_ne_preserves en b1 b2)). Qed.
+Print Assumptions C10_wrapper_func_bytes_index_preserves.
+
+(* strings.IndexAny(s, chars) >= 0 | != -1 => strings.ContainsAny(s, chars), on ASCII operands (outside: None on both sides) *)
+Theorem C10_wrapper_func_index_any_preserves : forall en s1 s2,
+  preserves en (rw_index_any_ge s1 s2) /\ preserves en (rw_index_any_ne s1 s2).
+Proof. intros en s1 s2. exact (conj (index_any_ge_preserves en s1 s2) (index_any_ne_preserves en s1 s2)). Qed.
+Print Assumptions C10_wrapper_func_index_any_preserves.
+
+(* strings.Replace(s, old, new, -1) => strings.ReplaceAll(s, old, new), bytes.Replace likewise *)
+Theorem C10_wrapper_func_replace_all_preserves : forall en s o n,
+  preserves en (rw_replace_all s o n) /\ preserves en (rw_bytes_replace_all s o n).
+Proof. intros en s o n. exact (conj (replace_all_preserves en s o n) (bytes_replace_all_preserves en s o n)). Qed.
+Print Assumptions C10_wrapper_func_replace_all_preserves.
+
+(* stringXbytes: string(x) == string(y) => bytes.Equal(x, y); != => !bytes.Equal(x, y) *)
+Theorem C10_string_x_bytes_equal_preserves : forall en, env_ok en -> forall x y,
+  typeof x = Some TBytes -> typeof y = Some TBytes ->
+  preserves en (rw_xbytes_equal x y) /\ preserves en (rw_xbytes_nequal x y).
+Proof. intros en Hen x y Tx Ty. exact (conj (xbytes_equal_preserves en Hen x y Tx Ty) (xbytes_nequal_preserves en Hen x y Tx Ty)). Qed.
+Print Assumptions C10_string_x_bytes_equal_preserves.
+
+(* stringConcatSimplify with the empty glue: strings.Join([]string{x, y}, "") => x + y, three elements likewise *)
+Theorem C10_string_concat_empty_glue_preserves : forall en, env_ok en -> forall x y z,
+  typeof x = Some TString -> typeof y = Some TString -> typeof z = Some TString ->
+  preserves en (rw_join2_empty x y) /\ preserves en (rw_join3_empty x y z).
+Proof. intros en Hen x y z Tx Ty Tz. exact (conj (join2_empty_preserves en Hen x y Tx Ty) (join3_empty_preserves en Hen x y z Tx Ty Tz)). Qed.
+Print Assumptions C10_string_concat_empty_glue_preserves.
+
+(* equalFold (not among the checkers C10 enumerates; modelled as an observation): with both sides lower-cased the
+   suggestion agrees with the original wherever the original is inside the ASCII fragment ...
+   full statement:  forall h, evalS en rhs h = evalS en lhs h  — not provable here: strings.ToLower on non-ASCII
+   operands is outside the model *)
+Theorem C10_equal_fold_both_lower_preserves_partial : forall en x y h o,
+  evalS en (rw_lhs (rw_equal_fold_both x y)) h = Some o -> evalS en (rw_rhs (rw_equal_fold_both x y)) h = Some o.
+Proof. exact equal_fold_both_lower_preserves_partial. Qed.
+Print Assumptions C10_equal_fold_both_lower_preserves_partial.
+
+(* ... and the one-sided patterns (`strings.ToLower($x) == $y`) change the result *)
+Theorem C10_equal_fold_one_sided_refuted :
+  exists en x y, env_ok en /\ equal_fold_filter x y = true /\
+    eval en (rw_lhs (rw_equal_fold_left x y)) = Some (RVal (VBool false), []) /\
+    eval en (rw_rhs (rw_equal_fold_left x y)) = Some (RVal (VBool true), []).
+Proof. exact equal_fold_one_sided_refuted. Qed.
+Print Assumptions C10_equal_fold_one_sided_refuted.
+
+Example C10_equal_fold_guard_satisfiable :
+  evalS (env_of [("x", VStr "Go"); ("y", VStr "gO")] []) (rw_lhs (rw_equal_fold_both (EIdent "x" TString) (EIdent "y" TString))) []
+    = Some (RVal (VBool true), []).
+Proof. vm_compute. reflexivity. Qed.
